@@ -14,8 +14,10 @@ def showResult : Result → String
     let bs := match b with | some n => toString n | none => "-"
     s!"topics[b={bs}] " ++ joinOr (l.map fun e => s!"t{e.1}:{e.2.1}:{e.2.2}")
   | .topicDetails l =>
+    let ids (xs : List Nat) : String := if xs.isEmpty then "-" else joinWith "." (xs.map toString)
     "details " ++ joinOr (l.map fun e =>
-      let ps := if e.2.2.isEmpty then "-" else joinWith "." (e.2.2.map toString)
+      let ps := if e.2.2.isEmpty then "-" else
+        joinWith ";" (e.2.2.map fun (p : PartInfo) => s!"{p.id}={ids p.replicas}|{ids p.isr}|{ids p.offline}")
       s!"t{e.1}:{e.2.1}:{ps}")
   | .groups l => "groups " ++ joinOr (l.map fun e => s!"g{e.1}:{e.2.1}:{e.2.2}")
   | .group g info =>
@@ -32,6 +34,11 @@ def stepLine (s : Store) (ws : List String) : Store × String :=
   | ["itopic", t, n] => match t.toNat?, n.toNat? with
     | some t, some n => ({ s with topics := s.topics ++ [(t, n)] }, "ok")
     | _, _ => (s, "bad-op")
+  | ["rtopic", t, n, v] => match t.toNat?, n.toNat?, v.toNat? with
+    | some t, some n, some v =>
+      ({ s with topics := s.topics ++ [(t, n)],
+                layouts := s.layouts ++ (List.range n).map fun p => ((t, p), layoutOf v p) }, "ok")
+    | _, _, _ => (s, "bad-op")
   | ["topic", t, n] => match t.toNat?, n.toNat? with
     | some t, some n =>
       let bad := n = 0 ∨ (alookup s.topics t).isSome ∨ s.brokers = 0
@@ -47,6 +54,13 @@ def stepLine (s : Store) (ws : List String) : Store × String :=
     | some t, some n, some r =>
       (exec s (.updateTopicConfig t ⟨n, r⟩), if (alookup s.topics t).isSome then "ok" else "err")
     | _, _, _ => (s, "bad-op")
+  | ["parts", t, n] => match t.toNat?, n.toNat? with
+    | some t, some n =>
+      let bad := match alookup s.topics t with
+        | none => true
+        | some cur => n ≤ cur
+      (exec s (.createPartitions t n), if bad then "err" else "ok")
+    | _, _ => (s, "bad-op")
   | ["offs", t, p, l] => match t.toNat?, p.toNat?, l.toInt? with
     | some t, some p, some l => (exec s (.updateOffsets t p l), "ok")
     | _, _, _ => (s, "bad-op")
